@@ -21,7 +21,7 @@ def run(tier, seed, replay=None):
         ck.mc(DIR, "Bnb", "NC_bnb_prune.cfg", expect_violation="Cover")
         ck.mc(DIR, "Bnb", "NC_bnb_ceil.cfg", expect_violation="Cover")
         if tier == "thorough":
-            ck.mc(DIR, "Bnb", "MC_bnb2.cfg", timeout=3000)
+            ck.mc(DIR, "Bnb", "MC_bnb2.cfg", timeout=14400)
         cases = [drv.gen(rng) for _ in range(250 if tier == "quick" else 4000)]
     res = run_tasks("milp", "run_milp", cases, timeout=60)
     trs = []
@@ -41,7 +41,7 @@ def run(tier, seed, replay=None):
             for k, v in r["cov"].items():
                 cov[k] = cov.get(k, 0) + v
         ck.extra["coverage_directed_generation_near_miss_bound_rows"] = cov
-    vs = ck.validate(DIR, "MilpTrace", trs, "solve_milp under 22-24 option settings per instance", timeout=3000)
+    vs = ck.validate(DIR, "MilpTrace", trs, "solve_milp under 22-24 option settings per instance", timeout=14400)
     ck.classify(trs, vs, nontrivial=lambda t, v: t["n"] >= 1)
     for t in trs:
         for e in t["events"]:
